@@ -71,6 +71,7 @@ type c02Workload struct {
 	Chain      bool        `json:"chain"`
 	Loaders    []c02Loader `json:"loaders"`
 	Reg        []c02File   `json:"reg"`
+	RegT       []c02File   `json:"regt"`
 	Threads    [][]c02Call `json:"threads"`
 	NCalls     int         `json:"ncalls"`
 	Nontrivial bool        `json:"nontrivial"`
@@ -269,6 +270,12 @@ func c02Engine(w *c02Workload, root string) *twig.Engine {
 	}
 	for _, r := range w.Reg {
 		e.RegisterString(unhex(r.N), unhex(r.S))
+	}
+	// templates without a name of their own: ParseTemplate result handed to RegisterTemplate
+	for _, r := range w.RegT {
+		if t, err := e.ParseTemplate(unhex(r.S)); err == nil {
+			e.RegisterTemplate(unhex(r.N), t)
+		}
 	}
 	return e
 }
